@@ -192,7 +192,9 @@ def compare_ops(chk, r, ddf, kind_of_active, prov, rep, boxes, right=None, sourc
                             continue           # NaN query box: whatever the index returns is irrelevant (no row of the partition can match)
                         real = sorted(int(x) for x in right.geometry.sindex.intersects(pbv[pi]))
                         if real != sorted(mcands[pi]):
-                            chk.violation(sig("sjoin-partition-candidates-differ-from-model"), dict(rep, partition=pi, impl=real, model=mcands[pi])); return
+                            # the joined rows were found right above: which right rows a partition is joined with is internal
+                            chk.tie_broken(f"correspondence C06 dask sjoin candidates (DaskJoin.keepOverlap vs right_sindex.intersects): partition={pi} "
+                                           f"impl={real} model={mcands[pi]} for {str(rep)[:300]}"); return
                     chk.count("model:dask-sjoin-" + how)
     except Exception as e:  # noqa: BLE001
         import traceback
@@ -295,6 +297,30 @@ def run_cases(chk, tier):
                 shutil.rmtree(path, ignore_errors=True)
                 if k == 0:
                     chk.sample(dict(kind=kind, elements=els[:3], npartitions=npart), cap=7)
+        # more than ten partitions through parquet (partition labels "10", "11" sort before "2" as text)
+        for kind in ("point", "line") if tier == "quick" else geo.KINDS:
+            n = 26
+            els = random_family(kind, r, n, 8) if kind != "point" else [[(7 * i) % 23 - 5, (11 * i) % 19 - 4] for i in range(n)]
+            if kind != "point":
+                # spread the elements so that partitions have distinct extents
+                def shift(e, dx):
+                    if isinstance(e, list) and e and not isinstance(e[0], list):
+                        return [c + (dx if i % 2 == 0 else 0) for i, c in enumerate(e)]
+                    return None if e is None else [shift(x, dx) for x in e]
+                els = [shift(e, 20 * (i // 2)) for i, e in enumerate(els)]
+            pts = [[(5 * i) % 17, (3 * i) % 13] for i in range(n)]
+            df = GeoDataFrame({"v": list(range(n)), "shape": geo.make_array(kind, els, "float64"),
+                               "pts": geo.make_array("point", pts, "float64")}, index=[f"i{j}" for j in range(n)])
+            right = GeoDataFrame({"rv": [0, 1], "geometry": geo.make_array("polygon", [[[0, 0, 5, 0, 5, 5, 0, 5, 0, 0]], [[3, 3, 9, 3, 9, 9, 3, 9, 3, 3]]], "float64")})
+            rep = dict(api="DaskGeoDataFrame", kind=kind, elements=els, points=pts)
+            path = os.path.join(tmp_root, f"{kind}_many.parq")
+            dd.from_pandas(df, npartitions=13).to_parquet(path)
+            boxes = [(0, 0, 5, 5), (-100, -100, 1000, 100), (40, -10, 90, 10), (200, -10, 260, 10)]
+            compare_ops(chk, r, read_parquet_dask(path), kind, "read_parquet_dask, 13 partitions", rep, boxes)
+            compare_ops(chk, r, read_parquet_dask(path, geometry="pts"), "point", "read_parquet_dask(geometry=), 13 partitions", rep, boxes[:2], right=right)
+            compare_ops(chk, r, read_parquet_dask(path, bounds=boxes[2]), kind, "read_parquet_dask(bounds=), 13 partitions", rep, boxes)
+            shutil.rmtree(path, ignore_errors=True)
+            chk.count("many-partitions")
     finally:
         shutil.rmtree(tmp_root, ignore_errors=True)
 
